@@ -92,6 +92,17 @@ func checkPurity(run *core.Run, m *openfgav1.AuthorizationModel) {
 		}
 	})
 	step("WeightedAuthorizationModelGraphBuilder.Build", func() { graph.NewWeightedAuthorizationModelGraphBuilder().Build(m) })
+	// a failing call in between leaves nothing behind: render, three failing renders, render again
+	before, berr := transformer.TransformJSONProtoToDSL(m)
+	for _, poison := range poisonModels() {
+		transformer.TransformJSONProtoToDSL(poison)
+		transformer.TransformJSONProtoToDSL(poison, transformer.WithIncludeSourceInformation(true))
+	}
+	after, aerr := transformer.TransformJSONProtoToDSL(m)
+	run.Eval(8)
+	if before != after || (berr == nil) != (aerr == nil) {
+		run.Violation("result-depends-on-an-earlier-failing-call", c, before, after)
+	}
 	step("utils", func() {
 		for _, td := range m.GetTypeDefinitions() {
 			for rn, u := range td.GetRelations() {
